@@ -8,7 +8,7 @@ ENV = "GOFLAGS=-mod=mod GOPROXY=off GOSUMDB=off GOTOOLCHAIN=local GOWORK=off"
 
 # id -> (technique, level text, level note, design ref)
 CLAIMED = {
-    "C12": ("lockset + guard-dominance + must-pass-through + def-use over go/ssa (custom checker)",
+    "C12": ("lockset + guard-dominance + must-pass-through + def-use over go/ssa (custom checker) + baton-passing after cond.Wait",
             "Structural necessary conditions decided exhaustively over the current source: lock discipline of the semaphore fields, "
             "capacity test dominates every grant in the same critical section, acquire/release pairing on all paths, clamp before acquire, "
             "wake-up after every release/resize, FIFO head-of-line, single acquisition order. All interleavings are covered at once because the rules "
@@ -18,12 +18,12 @@ CLAIMED = {
 }
 
 CLAIMED.update({
-    "C02": ("who-may-call (VTA call graph) + guard dominance with invalidation + path-sensitive all-elements-flag search + forward provenance over go/ssa",
+    "C02": ("who-may-call (VTA call graph) + guard dominance with invalidation + path-sensitive all-elements-flag search + forward provenance over go/ssa + must-pass-through (raw reference pass) + runtime/scheduler agreement on merges without fork node",
             "Structural necessary conditions of the ordering decided for all programs and schedules at once, because they are facts about the scheduler's code: exact caller sets of the submission chain, "
             "phase guards in stepStage, the all-chunks-complete flag, the waiting rule of Node.getState, dependency sources (inputs, disabled condition, return bindings, fork roots) flowing into the prenode/postnode sets, preflight prenodes incl. recursion into sub-pipelines.",
             "Not decided: that FindRefs returns every reference (value-level recursion), state derivation from real files, job manager internals. Trusts go/ssa and the VTA call graph.",
             "DESIGN.md §4 C02"),
-    "C03": ("guard dominance + must-pass-through + who-may-call over go/ssa; disjunctive at-most-once rule",
+    "C03": ("guard dominance + must-pass-through + who-may-call over go/ssa; disjunctive at-most-once rule + may-alias fix-point over package syntax (shared Disable list never extended in place)",
             "Structural necessary conditions: at-most-once submission (flag test-and-set OR synchronous _jobinfo record before execJob), disabled test before any submission/completion, "
             "empty/null mapped collections reach writeDisable, zero-length range reports disabled, skip() only for preflights under SkipPreflight.",
             "Not decided: one fork per element/key (run-time counts), liveness (no job skipped). The at-most-once rule is a disjunction on purpose: removing one of the two redundant mechanisms keeps behaviour and must not alarm.",
@@ -36,12 +36,12 @@ CLAIMED.update({
 })
 
 CLAIMED.update({
-    "C15": ("relation operand symmetry + field coverage (taint classes over go/ssa) + guard dominance on reattachToPipestance and Pipestance.Lock",
+    "C15": ("relation operand symmetry + field coverage (taint classes over go/ssa) + guard dominance on reattachToPipestance and Pipestance.Lock + all-elements-compared search + handler registration only for the lock owner",
             "Structural necessary conditions: every comparison / nested relation call in the equivalence relations pairs a receiver-derived value with the same component of the argument (found the genuine self-comparison in Modifiers.EquivalentTo, now fixed); "
             "each semantic field is read on both sides; attachment is dominated by byte equality with the recorded file and by EquivalentCall; refusals unlock; the lock is written only when absent, after the handler is registered; mutating entry points are guarded by readOnly().",
             "Not decided: completeness (cosmetic edits are accepted), races between two simultaneous first starts, that the byte comparison of the invocation text refuses a merely reformatted invocation (observation only).",
             "DESIGN.md §4 C15"),
-    "C18": ("table agreement (escape set extracted from SSA comparisons vs POSIX special set) + provenance with sanitizer + template scan",
+    "C18": ("table agreement (escape set extracted from SSA comparisons vs POSIX special set) + provenance with sanitizer + template scan + guard exclusion sets for verbatim copies + single-pass substitution (value derivation)",
             "Structural necessary conditions: the escape set of appendShellSafeQuote covers $ ` \" \\ (found the genuine missing back-tick, now fixed), values are wrapped in double quotes, every argv element / command / environment value reaches the script only through the quoting function, "
             "STDOUT/STDERR/JOB_WORKDIR/CMD parameters are quoted results, __MRO_CMD__ stands unquoted in command position in all templates.",
             "Not decided: invalid UTF-8 (octal extension), JOB_NAME/RESOURCES, directive parsers of each cluster. Oracle: POSIX XCU 2.2.3.",
@@ -49,19 +49,19 @@ CLAIMED.update({
 })
 
 CLAIMED.update({
-    "C04": ("deletion-site ownership table + who-may-call + guard dominance + backward string provenance + lockset (Fork.storageLock) over go/ssa",
+    "C04": ("deletion-site ownership table + who-may-call + guard dominance + backward string provenance + lockset (Fork.storageLock) over go/ssa + must-pass-through (alias completeness) + empty-path guard",
             "Structural necessary conditions decided for all interleavings at once: every os.Remove/RemoveAll of package core sits in a tabled function; files-path deleters are reachable only through partialVdrKill; a full kill needs Disabled or Complete with no waiting file post-node; "
             "consumers leave the waiting set only when seen Complete/Disabled and never the nil consumer; only files with a nil keep-alive set reach os.RemoveAll; chunk files only under Split(); top-level outputs and retains carry the nil consumer; cloned forks inherit the bookkeeping; the three maps are touched only under storageLock (constructor-phase exceptions tabled).",
             "Not decided: whether getLogicalFileNames/anyOverlap find every alias (file-system values); stages passing upstream paths through (excluded by the property).",
             "DESIGN.md §4 C04"),
-    "C14": ("backward string provenance of removal targets + report/removal pairing + guard dominance over go/ssa (partial claim)",
+    "C14": ("backward string provenance of removal targets + report/removal pairing + guard dominance over go/ssa (partial claim) + counted-once (entry leaves the cache)",
             "Structural necessary conditions: every path VDR removes originates from the stage's own metadata accessors or from file-cache keys produced by walking enumerateFiles(); no VDR across a symlinked ancestor; the slice reported is the slice removed, removal lies between recording and writing the report, inside a critical section; per-phase temp cleanup is state-guarded, flagged once and persisted.",
             "Partial: equality of Count/Size with bytes removed, completeness (no volatile file survives) and merge arithmetic are run-time values and not decided.",
             "DESIGN.md §4 C14"),
 })
 
 CLAIMED.update({
-    "C05": ("must-pass-through ordering + guard dominance + who-may-call + interface-implementation enumeration over go/ssa (core, util, cmd/mrjob, cmd/mrp)",
+    "C05": ("must-pass-through ordering + guard dominance + who-may-call + interface-implementation enumeration over go/ssa (core, util, cmd/mrjob, cmd/mrp) + must-do (state re-derived after reset)",
             "Crash-point enumeration is not static; decided instead are the ordering and ownership rules that make a crash at any point recoverable: durable-before-announced in the job monitor and in runJob, reset only of failed/orphaned work (never Complete), fresh uniquifier per attempt and stale notifications ignored, "
             "lock life-cycle and signal shutdown order, balanced critical sections that no HandleSignal enters and that enclose the multi-file updates.",
             "Not decided: equality of final outputs with an uninterrupted run, behaviour at each individual crash prefix, PID reuse. A lock leak on a non-signal error path of instantiatePipeline is outside the property's wording (handled signals) and reported as information in DESIGN.md.",
@@ -69,7 +69,7 @@ CLAIMED.update({
 })
 
 CLAIMED.update({
-    "C08": ("who-may-call + must-pass-through (deferred recover barrier) + guard dominance over go/ssa",
+    "C08": ("who-may-call + must-pass-through (deferred recover barrier) + guard dominance over go/ssa + include-graph acyclicity (guarded edge insertion) + may-be-nil propagation of the top-level call's nil *Pipeline",
             "Parse stage only. Structural necessary conditions: every caller of the generated parser installs a recover barrier that turns any panic of lexer, grammar action or literal conversion into a located parse failure (found four crashing inputs, fixed by adding the barrier); "
             "lexer progress (non-empty tokens, cursor advances every iteration); bounded include recursion.",
             "Not decided: panics in the compile phase (counted as information), time/memory proportionality (RE2 linearity assumed), errors without position.",
@@ -84,7 +84,7 @@ CLAIMED.update({
 })
 
 CLAIMED.update({
-    "C10": ("iteration-order analysis of every range-over-map loop reachable from the deterministic entry points (SSA loop bodies, effect classification, collect-then-sort recognition, call-effect fix-point over the VTA call graph) + self-validating triage table + positive examples",
+    "C10": ("iteration-order analysis of every range-over-map loop reachable from the deterministic entry points (SSA loop bodies, effect classification, collect-then-sort recognition, call-effect fix-point over the VTA call graph) + self-validating triage table + positive examples + sibling agreement of key-order comparators",
             "A structural necessary condition: Go's randomised map iteration is the only nondeterminism source in compile/format/resolve code (checked: no goroutine/clock/random there), so every map loop must have only order-insensitive effects, be collect-then-sort, or be triaged with a reason that the checker re-validates. "
             "Found 34 loops where map order reached error text, comment output or filtered JSON (18 distinct error texts in 60 compiles); fixed by sorted iteration.",
             "Not decided: order dependence through pointer identity, sort comparators that are not total orders, stability of topoSort. The 15 triage entries are the trusted part (each with a reason; 7 carry a machine-checked condition).",
@@ -99,18 +99,18 @@ CLAIMED.update({
 })
 
 CLAIMED.update({
-    "C17": ("sibling agreement over all implementations of the Type interface (guard dominance) + operand symmetry (taint classes) + phi-flag analysis over go/ssa (partial claim)",
+    "C17": ("sibling agreement over all implementations of the Type interface (guard dominance) + operand symmetry (taint classes) + phi-flag analysis over go/ssa (partial claim) + guard exclusion sets for raw strings written into rebuilt JSON",
             "Structural necessary conditions: every IsValidJson / FilterJson implementation accepts null first and without effect; every IsAssignableFrom / CheckEqual pairs the same component of receiver and argument; JSON rebuilders keep the identity fast path and raise the 'different' flag whenever a component changed.",
             "Partial: idempotence, validity of the rebuilt JSON and int/float normalisation are value-level and not decided.",
             "DESIGN.md §4 C17"),
-    "C07": ("operand symmetry over the assignability/equality relations + sibling agreement of the reference arm of every IsValidExpression implementation (guard dominance over go/ssa) (thin claim)",
+    "C07": ("operand symmetry over the assignability/equality relations + sibling agreement of the reference arm of every IsValidExpression implementation (guard dominance over go/ssa) (thin claim) + guard dominance with invalidation (map wrap, merge HasRef)",
             "Two mechanisms, not the property's behaviour: assignability recurses on the right operands; a reference is accepted only after resolveType succeeded and the referenced type is assignable TO the receiver type, in every implementation of the interface.",
             "Thin: soundness of the whole relation, projection, map-call dimensions and error locations are not decided.",
             "DESIGN.md §4 C07"),
 })
 
 CLAIMED.update({
-    "C19": ("field-coverage (which syntax fields the refactoring code reads, per entry point over the call graph incl. Apply methods of created edits, and per enumerating function) + sibling agreement of the expression walkers' type switches (thin claim)",
+    "C19": ("field-coverage (which syntax fields the refactoring code reads, per entry point over the call graph incl. Apply methods of created edits, and per enumerating function) + sibling agreement of the expression walkers' type switches (thin claim) + whole-name-match lint + inferred key domains of the callable tables + name-space separation + live-identity check on edits",
             "Two mechanisms, not the behaviour: every place where a renamed or removed name can occur (call/modifier/return bindings, pipeline retains, top-level call) is visited by the refactoring that concerns it; every expression walker has an arm for each reference-bearing expression kind and recurses (or enumerates with FindRefs).",
             "Thin: that the edited program compiles, call-graph equality and rename round-trips are not decided.",
             "DESIGN.md §4 C19"),
